@@ -91,6 +91,10 @@ pub struct RangeTrace {
     /// published vector: the sealed words must equal these (C06)
     #[serde(default)]
     pub expect: Option<Vec<u64>>,
+    /// consumer: take the decoder apart (`into_raw_parts`) and reassemble it
+    /// (`from_raw_parts`) before decoding the symbols at these indices
+    #[serde(default)]
+    pub reassemble_at: Vec<usize>,
 }
 
 type Cb<W> = Box<dyn FnMut(W)>;
@@ -344,6 +348,26 @@ fn exec_cfg<C: Ws>(t: &RangeTrace, ctx: &mut Ctx, skip_inspect: bool) -> Result<
             RangeOp::Enc { sym, m } => {
                 let Some(b) = model(*m) else { ctx.stats.hit("skipped-op"); continue };
                 let Some((cum, prob)) = (if b.can_encode() { b.lcp64(*sym) } else { None }) else { ctx.stats.hit("skipped-op"); continue };
+                if ctx.on("C09") {
+                    // fault enumeration at this position, on clones: a catalogue of
+                    // out-of-support symbols for the model about to be used
+                    let lo = *b.support.iter().min().unwrap();
+                    let hi = *b.support.iter().max().unwrap();
+                    let s0 = b.support[(message.len() + *m) % b.support.len()];
+                    for cand in [lo - 1, hi + 1, i64::from(i32::MAX), i64::from(i32::MIN), s0 + (1i64 << 8), s0 + (1i64 << 16), s0 + (1i64 << 32), s0 - (1i64 << 8), s0 + (1i64 << b.p.min(62)), s0 + (1i64 << b.pb.min(62))] {
+                        if b.in_support(cand) { continue; }
+                        let Some(mut c) = enc.clone_() else { break };
+                        let raw = c.raw();
+                        let res = c.enc(b, cand);
+                        ctx.stats.hit("fault-badsym-enumerated");
+                        if !res.is_impossible() {
+                            viol!(ctx, "C09", "range-impossible-symbol-not-rejected", "sym={} model={:?} -> {:?} (enumerated at encode position {})", cand, t.models[*m], res, message.len());
+                        }
+                        if c.raw() != raw {
+                            viol!(ctx, "C09", "range-changed-by-rejected-symbol", "sym={}: {:?} -> {:?}", cand, raw, c.raw());
+                        }
+                    }
+                }
                 let before = enc.written().len();
                 let res = enc.enc(b, *sym);
                 if res != EncRes::Ok {
@@ -597,6 +621,20 @@ fn exec_cfg<C: Ws>(t: &RangeTrace, ctx: &mut Ctx, skip_inspect: bool) -> Result<
         ($d:expr, $exact_backend:expr, $what:expr) => {{
             let mut d = $d;
             for (k, (sym, b)) in decs.iter().enumerate() {
+                if t.reassemble_at.contains(&k) {
+                    // a decoder taken apart between two symbols and put together again is the same decoder
+                    let (bulk, state, point) = d.into_raw_parts();
+                    ctx.stats.hit("op-decoder-reassembled");
+                    d = match RangeDecoder::from_raw_parts(bulk, state, point) {
+                        Ok(d) => d,
+                        Err(_) => {
+                            if ctx.on("C02") {
+                                viol!(ctx, "C02", "range-decoder-raw-parts-refused", "{}: from_raw_parts(into_raw_parts(decoder)) refused before symbol {}", $what, k);
+                            }
+                            return Ok(log);
+                        }
+                    };
+                }
                 let got = <C::W as WordOps>::dec(&mut d, b);
                 if let DecRes::Ok(s) = got { log.decoded.push(s); }
                 ctx.stats.hit("op-dec");
@@ -977,10 +1015,11 @@ pub fn generate(seed: u64, prop: &str, thorough: bool) -> RangeTrace {
         _ => Suffix::None,
     };
     let source = *bias.pick(&[Source::CursorVec, Source::CursorVec, Source::Slice, Source::ForCompressed, Source::FallibleIter, Source::QStore, Source::ReversedCursor, Source::Guard, Source::IntoDecoder]);
+    let reassemble_at: Vec<usize> = if prop == "C02" && rng.chance(1, 3) { (0..1 + rng.usize(3)).map(|_| rng.usize(n_syms + 1)).collect() } else { Vec::new() };
     let seeks = if prop == "C07" {
         (0..1 + rng.usize(10)).map(|_| (rng.usize(n_snaps + 1), rng.usize(8))).collect()
     } else {
         Vec::new()
     };
-    RangeTrace { cfg, sink, prefix, models, ops, source, suffix, seeks, expect: None }
+    RangeTrace { cfg, sink, prefix, models, ops, source, suffix, seeks, expect: None, reassemble_at }
 }
